@@ -25,9 +25,13 @@ def run(c):
     lc.design_checks(c)
     n, depth = (24, 18) if c.tier == "quick" else (300, 26)
     behs = lc.handmade() + lc.simulate(c, n, depth, c.seed)
+    nsh = 4 if c.tier == "quick" else 6
     all_digests = []
-    for gmp in ("1", "2", "16"):
-        d, traces = lc.run_ledger(c, PID, behs, nshards=4 if c.tier == "quick" else 6, validators=2 if c.tier == "quick" else 4, gomaxprocs=gmp, tag="g" + gmp)
+    # the producer run (GOMAXPROCS 1) ships its blocks; the other processes only re-execute exactly those blocks
+    d, traces = lc.run_ledger(c, PID, behs, nshards=nsh, validators=2 if c.tier == "quick" else 4, gomaxprocs="1", tag="g1", blocks_out=True)
+    all_digests.append(("1", d))
+    for gmp in ("2", "16"):
+        d, _ = lc.run_ledger(c, PID, behs, nshards=nsh, validators=2 if c.tier == "quick" else 4, gomaxprocs=gmp, tag="g" + gmp, blocks_in="g1")
         all_digests.append((gmp, d))
     base_g, base = all_digests[0]
     for g, d in all_digests[1:]:
